@@ -349,6 +349,39 @@ func checkC15(c *Ctx) {
 		}
 		c.Check(ok, "R15.1", acs.String(), "additive", acs.Pos(), "AddCallerSkip(n) adds exactly n to callerSkip")
 	}
+	// the slog handler's option does the same: it ADDS to what is there (options of layered wrappers accumulate)
+	if wcs := c.Func(SlogPath, "WithCallerSkip"); c.Anchor("R15.1", "zapslog.WithCallerSkip", wcs != nil && len(wcs.Params) == 1) {
+		okS, nSt := false, 0
+		hn := c.Named(SlogPath, "Handler")
+		for _, f := range WithClosures(wcs) {
+			if hn == nil {
+				break
+			}
+			AllInstrs(f, func(in ssa.Instruction) {
+				sto, isSt := in.(*ssa.Store)
+				if !isSt {
+					return
+				}
+				fa, isFA := sto.Addr.(*ssa.FieldAddr)
+				if !isFA || fieldName(fa.X.Type(), fa.Field) != "callerSkip" {
+					return
+				}
+				nSt++
+				l := evalLin(sto.Val, nil, 0)
+				others := 0
+				for k, v := range l.syms {
+					if k != "callerSkip" {
+						others++
+						if v != 1 {
+							others = 99
+						}
+					}
+				}
+				okS = l.c == 0 && l.syms["callerSkip"] == 1 && others == 1
+			})
+		}
+		c.Check(okS && nSt == 1, "R15.1", wcs.String(), "additive", wcs.Pos(), "zapslog.WithCallerSkip(n) adds exactly n to the handler's callerSkip (one store: callerSkip + n)")
+	}
 
 	// the preset zapslog.NewHandler stores in its handler's callerSkip (none on the reference tree: Handle adds its
 	// constant itself), by exploring NewHandler without options
